@@ -175,7 +175,7 @@ fn main() {
 	use std::os::unix::process::ExitStatusExt;
 	let sig = status.signal().unwrap_or(0);
 	let mut units = vec![];
-	if let Ok(rd) = std::fs::read_dir(format!("{}/target/hb/{}", VERIF, id)) {
+	if let Ok(rd) = std::fs::read_dir(format!("{}/target/hb/{}", verif_root(), id)) {
 		for e in rd.flatten() {
 			if let Ok(s) = std::fs::read_to_string(e.path()) {
 				units.push(s);
@@ -190,7 +190,7 @@ fn main() {
 			"detail": format!("checking process died with signal {}", sig),
 			"case": {"sub": format!("{}.death", id), "units_in_flight": units, "tier": tier.name()},
 		});
-		let dir = format!("{}/replays/{}", VERIF, id);
+		let dir = format!("{}/replays/{}", verif_root(), id);
 		let _ = std::fs::create_dir_all(&dir);
 		let path = format!("{}/death-signal-{}.json", dir, sig);
 		let _ = std::fs::write(&path, serde_json::to_string_pretty(&body).unwrap());
